@@ -886,18 +886,27 @@ func nilRelevant(fn *ssa.Function) map[ssa.Value]bool {
 		}
 	}
 	hasPhi := false
+	tested := map[ssa.Value]int{}
 	forEachInstr(fn, func(_ *ssa.BasicBlock, _ int, in ssa.Instruction) {
 		b, ok := in.(*ssa.BinOp)
 		if !ok {
 			return
 		}
 		if v, _, ok := nilFact(b, true); ok {
+			tested[v]++
 			if _, isPhi := v.(*ssa.Phi); isPhi {
 				hasPhi = true
 				add(v, 0)
 			}
 		}
 	})
+	// a value tested twice (the caller's `if err != nil` around an inlined helper's own): the second
+	// test's outcome is the first's
+	for _, n := range tested {
+		if n > 1 {
+			hasPhi = true
+		}
+	}
 	if !hasPhi {
 		rel = nil
 	} else {
